@@ -42,6 +42,7 @@ def discharged : List (String × String) := [
   ("gtfs: panic in hasher.number", "binary.Write fails only for types without fixed size; every argument is a fixed-size number or bool (Gen.HashSchema widths)"),
   ("journal: deref *journal.Trip", "trips[tripID] for tripID collected from the keys of trips; entries are created non-nil"),
   ("journal: index []journal.StopTime", "createPartition: indices derived from the partition (firstUpdatedStopTimeIndex + i bounded by the loop condition)"),
+  ("journal: index []gtfs.StopTimeUpdate", "the updates of a feed's trip indexed below the number of updates matched by the partition (<= len(updates) by the matching loop's condition); Trip.update / createPartition are modelled as Journal.update (take / zip / drop, total) and compared with the implementation after every prefix of every generated history"),
   ("journal: slice []gtfs.StopTimeUpdate", "createPartition: updateIndex <= len(updates) by the loop condition; len(updates) == 0 returns first"),
   ("journal: slice []journal.StopTime", "len(p.past)+len(p.updated) <= len(trip.StopTimes) by construction of the partition; firstUpdatedStopTimeIndex <= len(stopTimes)")]
 
@@ -49,10 +50,17 @@ def discharged : List (String × String) := [
     one of the hand-discharged kinds** -/
 theorem C05_inventory_discharged : Gen.Inventory.panicSiteKinds.all (fun s => (discharged.map (·.1)).contains s) = true := by decide
 
-/-- **the only loops without a structural bound** are `Stop.Root` (terminates: the parent links are
-    a forest, `C03_parent_forest`) and `DirectoryGtfsrtSource.Next` (the list of remaining file names
-    shrinks in every iteration, `Journal.dirSource` is a `filterMap`) -/
-theorem C05_unbounded_loops : Gen.Inventory.unboundedLoops = ["gtfs.Stop.Root: for {}", "journal.DirectoryGtfsrtSource.Next: for {}"] := by decide
+/-- the functions that may contain a loop without a structural bound, with the reason it ends -/
+def unboundedLoopFunctions : List (String × String) := [
+  ("gtfs.Stop.Root", "walks Parent links: the parent links are a forest (`C03_parent_forest`, `C05_root_terminates`)"),
+  ("journal.DirectoryGtfsrtSource.Next", "consumes the list of remaining file names, which shrinks in every iteration (`Journal.dirSource` is a `filterMap` over the sorted listing)")]
+
+/-- **the only condition-less loops** (`for { … }` with an exit inside) are in `Stop.Root` and in
+    `DirectoryGtfsrtSource.Next`; such a loop anywhere else in the library fails this theorem (a loop that is given
+    a condition instead leaves the list; hangs are then the business of the exploration, which runs every accessor
+    under a watchdog) -/
+theorem C05_unbounded_loops :
+    Gen.Inventory.unboundedLoopFuncs.all (fun s => (unboundedLoopFunctions.map (·.1)).contains s) = true := by decide
 
 /-- `Stop.Root` terminates on every result of the parser: the chain of parents from any stop ends -/
 theorem C05_root_terminates (ids parentIds : List Str) (i : Nat) :
